@@ -221,6 +221,30 @@ func ruleC20Load(cx *Ctx) {
 				it := namedTypeName(callCommon(in).Value.Type())
 				if it == "Loader" || it == "BulkLoader" {
 					bad := "invoked outside any closure"
+					if fn.Parent() == nil {
+						// a named function / method that wraps the loader: it may only be used as a value handed to the sinks
+						bad = ""
+						uses := 0
+						for _, g := range cx.P.ModuleFuncs() {
+							allInstrs(g, func(x ssa.Instruction) {
+								if isCallTo(x, fn) {
+									bad = "called directly from " + funcName(g)
+									uses++
+								}
+								if mc, ok := x.(*ssa.MakeClosure); ok {
+									if bm := boundMethod(mc); bm != nil && origin(bm) == origin(fn) {
+										uses++
+										if b := flowsOnlyTo(mc, sinks, outermost(g), map[ssa.Value]bool{}); b != "" {
+											bad = b
+										}
+									}
+								}
+							})
+						}
+						if uses == 0 {
+							bad = "never handed to a dispatch"
+						}
+					}
 					if fn.Parent() != nil {
 						bad = ""
 						allInstrs(fn.Parent(), func(x ssa.Instruction) {
